@@ -190,7 +190,8 @@ def run_sweep(ck: common.Check, prop: str, tier: str):
     temps = temperature_grid(rng, tier)
     for gen in (4, 5):
         for ci, (modes, fans, lims) in enumerate(ability_configs(gen, rng, tier)):
-            inst = T.tie_installation(gen, modes, fans, lims)
+            acn = ([0, 3, 1, 2] if gen == 4 else [1, 0, 8, 15, 7, 12])[ci % (4 if gen == 4 else 6)]
+            inst = T.tie_installation(gen, modes, fans, lims, ac_number=acn, zone_base=[0, 5, 11, 13, 2][ci % 5] if gen == 4 or ci % 5 != 3 else 11)
             rig = T.make_rig(inst)
             try:
                 ac = rig.at.air_conditioners[0]
@@ -219,7 +220,7 @@ def run_sweep(ck: common.Check, prop: str, tier: str):
                     out, frames, detail = T.invoke(rig, tgt, call, args)
                     ck.note_case((gen, ci, kind, tgt.zone_id if kind == "zone" else 0, call, tuple(args)))
                     dist[f"at{gen}_call{call}_{'sent' if out[:1] == [0] else 'refused' if out == [1] else 'unsendable' if out == [2] else 'other'}"] += 1
-                    replay = {"gen": gen, "ability": {"modes": modes, "fans": fans, "limits": lims}, "target": kind,
+                    replay = {"gen": gen, "ability": {"modes": modes, "fans": fans, "limits": lims, "ac_number": acn}, "target": kind,
                               "zone": tgt.zone_id if kind == "zone" else None, "call": call, "args": [repr(a) for a in args]}
                     bad = None
                     it = intent(gen, rig, kind, tgt, call, args)
